@@ -36,4 +36,3 @@ pub assume_specification<T: std::cmp::PartialEq> [<[T]>::contains] (s: &[T], x: 
 pub assume_specification<I: std::slice::SliceIndex<str>> [str::get] (_0: &str, _1: I) -> std::option::Option<&<I as std::slice::SliceIndex<str>>::Output>;
 pub assume_specification [i64::checked_neg] (x: i64) -> (r: std::option::Option<i64>)
     ensures r == (if x == i64::MIN { None::<i64> } else { Some((0 - x) as i64) });
-pub assume_specification[<Ordering as PartialEq>::eq](a: &Ordering, b: &Ordering) -> (r: bool) ensures r == (*a == *b);
